@@ -3,6 +3,7 @@ import sys
 
 from sa import report, rules_sibling as RSB, rules_read as RD, rules_opts as RO, rules_order as RO2
 from sa import rules_extra as RX
+from sa import rules_grammar as RG
 from sa import rules_reader as RRD
 
 
@@ -33,6 +34,8 @@ def run(ctx, repo):
     # both back-ends must agree on what ends the input: libyaml's read handler contract is "0 bytes read"; the Python
     # reader must likewise declare end of input only on an empty read (a short read is not the end)
     RRD.r_incremental_decode(ctx, repo)
+    RG.r_parser_grammar(ctx, repo, max_len=8 if ctx.tier == 'thorough' else 6)
+
 
 if __name__ == '__main__':
     sys.exit(report.main('C06', 'other', run))
